@@ -166,6 +166,7 @@ def _summary(res, psi_ref=None):
         s['last_sweep'] = int(res['sweep_stats']['sweep'][-1])
     except Exception:
         pass
+    s['scalars'] = {k: float(v) for k, v in res.items() if str(k).startswith('c18_') and isinstance(v, (int, float))}
     psi = res.get('psi')
     if psi is not None:
         s['chi'] = [int(c) for c in psi.chi]
@@ -189,6 +190,7 @@ def run_job(job):
     tenpy.tools.misc.skip_logging_setup = True
     from tenpy.simulations import simulation
     from tenpy.tools import hdf5_io
+    from harness import c18_models  # noqa: F401  (model classes found by name)
     d = tempfile.mkdtemp(prefix='verif-c18r-')
     cwd = os.getcwd()
     out = {'job': {k: job.get(k) for k in ('kind', 'cls', 'engine', 'fmt', 'n', 'unit', 'params', 'sigint', 'schedule')}}
@@ -323,6 +325,10 @@ def diff_det(plain, res, kind):
         return [('exception.%s.%s' % (res['exception'], res['where']), res['tb'][-400:])]
     if not res['finished']:
         out.append(('not-finished', ''))
+    if plain['keys'] != res['keys']:
+        out.append(('result-keys-differ', '%r vs %r' % (plain['keys'], res['keys'])))
+    if not _close(sorted(res.get('scalars', {}).items()), sorted(plain.get('scalars', {}).items())):
+        out.append(('post-processing-differs', '%r vs %r' % (plain.get('scalars'), res.get('scalars'))))
     pm, rm = plain['meas'], res['meas']
     if sorted(pm) != sorted(rm):
         out.append(('measurement-keys-differ', '%r vs %r' % (sorted(pm), sorted(rm))))
@@ -333,6 +339,8 @@ def diff_det(plain, res, kind):
                         (k, len(pm[k]), len(rm[k]), rm.get('measurement_index'))))
             return out
     for k in sorted(pm):
+        if 'walltime' in k:
+            continue
         if not _close(rm[k], pm[k]):
             out.append(('measurement-values-differ:' + k, 'plain %r resumed %r' % (pm[k], rm[k])))
     if 'energy' in plain and not _close(res.get('energy'), plain['energy']):
@@ -538,9 +546,87 @@ def make_jobs(ctx, rng):
     return jobs
 
 
+def extra_jobs(ctx, rng):
+    """Option variants of the save/resume machinery (coverage round): each is a deterministic-class job, resumed
+    from every checkpoint and diffed against the plain run and the loop machine."""
+    jobs = []
+
+    def te(engine='TEBDEngine', fmt='pkl', variant=None):
+        j = te_params(rng, engine, fmt)
+        j['sigint'] = None
+        j['schedule'] = variant
+        return j
+
+    # measure_initial = False
+    j = te(variant='te:measure_initial=False')
+    j['params']['measure_initial'] = False
+    jobs.append(j)
+    # measurements also through the checkpoint listener (two per step)
+    j = te(variant='te:measure_at_algorithm_checkpoints')
+    j['params']['measure_at_algorithm_checkpoints'] = True
+    jobs.append(j)
+    # final_time is not a multiple of dt*N_steps: the run goes beyond it by part of a step
+    j = te(engine=rng.choice(['TEBDEngine', 'ExpMPOEvolution']), variant='te:final_time-not-multiple')
+    j['params']['final_time'] = j['unit'] * (j['n'] - rng.choice([0.25, 0.5, 0.75]))
+    jobs.append(j)
+    # grouped sites (TEBD on a coarse-grained chain), the checkpoint holds the grouped state
+    j = te(variant='te:group_sites')
+    j['params']['model_params']['L'] = rng.choice([4, 6])
+    j['params']['group_sites'] = 2
+    j['params']['group_to_NearestNeighborModel'] = True
+    j['params']['algorithm_params']['trunc_params']['chi_max'] = rng.choice([3, 4, 6])
+    jobs.append(j)
+    # time-dependent Hamiltonian: the model is re-initialised at the evolved time (also after a resume)
+    eng = rng.choice(['TimeDependentTEBD', 'TimeDependentExpMPOEvolution', 'TimeDependentTwoSiteTDVP'])
+    j = te(engine='ExpMPOEvolution' if eng == 'TimeDependentExpMPOEvolution' else 'TEBDEngine',
+           fmt=rng.choice(['pkl', 'h5']), variant='te:time-dependent-H')
+    j['engine'] = eng
+    j['params']['algorithm_class'] = eng
+    if eng == 'TimeDependentTwoSiteTDVP':
+        j['params']['algorithm_params'].pop('order', None)
+    j['params']['model_class'] = 'C18DrivenXXZ'
+    mp = j['params']['model_params']
+    mp.pop('hz', None)
+    mp.update(hz0=rng.randrange(1, 5) / 4.0, omega=rng.choice([1.0, 2.0, 4.0]))
+    jobs.append(j)
+    # QR based TEBD
+    j = te(engine='TEBDEngine', variant='te:QRBasedTEBDEngine')
+    j['engine'] = 'QRBasedTEBDEngine'
+    j['params']['algorithm_class'] = 'QRBasedTEBDEngine'
+    jobs.append(j)
+    # no default measurements; custom functions of every kind with priorities; gzip pickle
+    j = te(fmt='pklz', variant='te:custom-measurements')
+    j['params']['use_default_measurements'] = False
+    j['params']['connect_measurements'] = [
+        ['tenpy.simulations.measurement', 'm_measurement_index', {}, 1],
+        ['harness.c18_meas', 'm_steps', {}, -5],
+        ['tenpy.simulations.measurement', 'm_evolved_time', {}, 3],
+        ['psi_method', 'wrap entanglement_entropy', {'results_key': 'c18_S'}],
+        ['tenpy.simulations.measurement', 'wrap m_bond_dimension'.split()[1] if False else 'm_bond_dimension', {'results_key': 'c18_chi'}],
+        ['simulation_method', 'wrap walltime'],
+        ['simulation_method', 'wrap eps_error', {'results_key': 'eps_error'}, -1],
+        ['harness.c18_meas', 'm_flaky_key', {'every': 2}, -10],
+    ]
+    jobs.append(j)
+
+    def gs(variant, **kw):
+        j = gs_params(rng, 'TwoSiteDMRGEngine', 'det', rng.choice(['pkl', 'pkl', 'h5']))
+        j['sigint'] = None
+        j['schedule'] = variant
+        j['params'].update(kw)
+        return j
+
+    jobs.append(gs('gs:no-checkpoint-measurements', measure_at_algorithm_checkpoints=False))
+    jobs.append(gs('gs:measure_initial=False', measure_initial=False))
+    jobs.append(gs('gs:save_stats=False,save_psi=False,save_resume_data=True,post_processing',
+                   save_stats=False, save_psi=False, save_resume_data=True,
+                   post_processing=[['harness.c18_meas', 'pp_energy_span', {'key': 'energy_MPO', 'results_key': 'c18_span'}]]))
+    return jobs
+
+
 def run(ctx, res, pool, use_model=True, corpus=()):
     rng = ctx.sub_rng('resume')
-    jobs = list(corpus) + make_jobs(ctx, rng)
+    jobs = list(corpus) + make_jobs(ctx, rng) + extra_jobs(ctx, ctx.sub_rng('resume-extra'))
     results = pool.map(run_job, jobs, chunksize=1)
     evaluate(ctx, res, results, use_model=use_model)
     return res
